@@ -6,11 +6,13 @@ META = {
 }
 import json
 import random
+import re
 import time
 from harness.core import Machinery
+from harness import tla
 from harness.drivers import lookup as drv
 
-INVS = ["FirstObtained", "NoStrayKeys", "WalkIsLookup"]
+INVS = ["FirstObtained", "NoStrayKeys", "WalkIsLookup", "PartsAgree"]
 
 
 def mc_cfg(headers, bodies, pre, maxblocks, pin_none=False, pin_order=False, invariants=INVS):
@@ -124,10 +126,10 @@ def run(c):
     q = c.quick
     stage, t0 = {}, time.time()
     # ---- M: pinned parse / pinned expansion order must each yield a counterexample to FirstObtained
-    c.mc("SshConfig_MC", mc_cfg("MC_HeadersCore", "MC_BodiesCore", "MC_PreNone", 1, pin_none=True), expect="FirstObtained",
-         name="pinned parse: ProxyCommand none stored unconditionally", workers=4)
-    c.mc("SshConfig_MC", mc_cfg("MC_HeadersCore", "MC_BodiesCore", "MC_PreNone", 2, pin_order=True), expect="FirstObtained",
-         name="pinned expansion: %h taken from hostname in dict order", workers=4)
+    pinned = [(dict(pin_none=True), "MC_PreNone", "pinned parse: ProxyCommand none stored unconditionally"),
+              (dict(pin_order=True), "MC_PreSome", "pinned expansion: %h taken from hostname in dict order")]
+    for kw, pre, name in ([pinned[c.seed % 2]] if q else pinned):      # quick: one of the two per seed
+        c.mc("SshConfig_MC", mc_cfg("MC_HeadersCore", "MC_BodiesCore", pre, 1, **kw), expect="FirstObtained", name=name, workers=4)
     # repaired walk against the declarative statement; one CASE per (config, host)
     if q:
         runs = [("MC_HeadersCore", "MC_BodiesCore", "MC_PreNone", 2)]
@@ -137,24 +139,27 @@ def run(c):
     for hs, bs, ps, mb in runs:
         emit = True
         r = c.mc_holds("SshConfig_MC", mc_cfg(hs, bs, ps, mb, invariants=INVS + (["Emit"] if emit else [])),
-                       name="repaired walk %s x %s, %d blocks" % (hs, bs, mb), workers=1 if emit else 16)
-        if emit:
-            cases += r.printed("CASE")
+                       name="repaired walk %s x %s, %d blocks" % (hs, bs, mb), workers=4)
+        got = [tla.parse(cs[1]) for cs in r.printed("CASE")]      # [cfg, host, stable]; one single-line print per walk
+        m = re.search(r"Finished computing initial states: (\d+) distinct", r.out)
+        if not m or int(m.group(1)) != len(got):
+            raise Machinery("expected one CASE per initial state: %s vs %d" % (m and m.group(1), len(got)))
+        cases += got
     if not cases:
         raise Machinery("no CASE emitted")
-    if not any(cs[4] for cs in cases):
+    if not any(cs[2] for cs in cases):
         raise Machinery("model never reaches an unambiguous configuration")
     stage["model_checking_s"] = round(time.time() - t0, 1)
     # ---- RP: group by config, render, run the real parser/lookup
     env = drv.cfg_env()
     by_cfg = {}
-    for _, cfg, host, opts, stable in cases:
+    for cfg, host, stable in cases:
         key = json.dumps(cfg, sort_keys=True)
         by_cfg.setdefault(key, (cfg, []))[1].append(host)
     items = list(by_cfg.values())
     n_cfg = len(items)
-    if q and len(items) > 1500:
-        items = rnd.sample(items, 1500)
+    if q and len(items) > 1200:
+        items = rnd.sample(items, 1200)
     records = []
     for cfg, hosts in items:
         text = drv.cfg_render(cfg, rnd if rnd.random() < 0.5 else None)
@@ -165,7 +170,7 @@ def run(c):
     n_rp = len(records)
     stage["replay_s"] = round(time.time() - t0, 1)
     # ---- TV: random configs of up to 12 blocks, three hostnames each
-    for _ in range(700 if q else 8000):
+    for _ in range(500 if q else 8000):
         cfg = rnd_config(rnd)
         hosts = [rnd_host(rnd) for _ in range(3)]
         text = drv.cfg_render(cfg, rnd)
@@ -181,12 +186,12 @@ def run(c):
     chunk = 3000
     for lo in range(0, len(records), chunk):
         part = records[lo:lo + chunk]
-        res, _ = c.trace("SshConfig_Trace", [{k: r[k] for k in ("cfg", "env", "gh", "lookups")} for r in part], TRACE_CFG, heap="8g",
+        res, _ = c.trace("SshConfig_Trace", [{k: r[k] for k in ("cfg", "env", "gh", "lookups")} for r in part], TRACE_CFG, heap="8g", workers=4,
                          env={"_JAVA_OPTIONS": "-Xss64m"})      # 12-block configs nest the fold deeply
         if len(res["DONE"]) != len(part):
             raise Machinery("trace validation consumed %d of %d records" % (len(res["DONE"]), len(part)))
         for row in res["VERDICT"]:
-            tid, line, bad = row[1], row[2], row[3]
+            tid, line, bad = tla.parse(row[1])
             rec = part[tid - 1]
             q_ = rec["lookups"][line - 1]
             for name, detail in bad:
@@ -212,6 +217,6 @@ def run(c):
     c.extra["exhaustive"] = n_cfg == n_rp      # the model checking is exhaustive; the replay only if no config was sampled out
     c.extra["enumerated_configs"] = n_cfg
     c.rule = ("every config TLC builds from the header universe (Host with wildcard/negated patterns, Match all/final/originalhost[/host/user]) x body "
-              "universe (repeated keys, ProxyCommand none, IdentityFile lists, tokens) with <= 2 explicit blocks x 3 names (quick tier: a seeded sample of 1500 of these configs), rendered and run through SSHConfig; "
+              "universe (repeated keys, ProxyCommand none, IdentityFile lists, tokens) with <= 2 explicit blocks x 3 names (quick tier: a seeded sample of 1200 of these configs), rendered and run through SSHConfig; "
               "+ seeded random configs of 1-12 blocks x 3 names with spelling/spacing variants; distinct = distinct (config text, hostname)")
     c.assumptions = ["POSIX fnmatch semantics; patterns use only * and ?", "the local user/home/hostname/fqdn do not change during the run"]
